@@ -168,9 +168,25 @@ def run_proof(built, proof, workdir, extra_defs=(), trace=False):
         res['error'] = 'goto-instrument failed: ' + (so + se)[-3000:]
         return res
     if 'skipping instrumentation' in (so + se) and mode == 'contracts':
-        res['error'] = 'a loop without contract was skipped by goto-instrument (rule 15): ' + \
-            '; '.join(l for l in (so + se).split('\n') if 'skipping' in l)[:500]
-        return res
+        repl = set(proof.get('replace', []))
+        calls = built['L'].calls
+        reach, todo = set(), [proof.get('enforce')]
+        while todo:
+            f = todo.pop()
+            if f in reach or f is None:
+                continue
+            reach.add(f)
+            for c in calls.get(f, ()):
+                if c not in repl:
+                    todo.append(c)
+        bad = []
+        for l in (so + se).split('\n'):
+            m = re.search(r'loop (\S+)\.\d+ does not have a contract', l)
+            if m and (m.group(1) in reach or not proof.get('enforce')):
+                bad.append(l.strip())
+        if bad:
+            res['error'] = 'a loop without contract was skipped by goto-instrument (rule 15): ' + '; '.join(bad)[:500]
+            return res
     cb = ['cbmc', gb1] + CBMC_CHECKS + SOLVER + ['--object-bits', str(proof.get('object_bits', 10)), '--json-ui', '--verbosity', '6']
     if isinstance(mode, tuple) and mode[0] == 'unwind':
         cb += ['--unwind', str(mode[1]), '--unwinding-assertions']
